@@ -41,14 +41,15 @@ where P: SingleObjectiveProblem + ObjectiveFunction + Sync + 'static, P::Encodin
     fingerprint(&state)
 }
 
-fn check_template<P>(name: &str, config: Configuration<P>, problem: &P, stochastic: bool) -> u64
+fn check_template<P>(name: &str, config: Configuration<P>, problem: &P, stochastic: bool, other: Option<&P>) -> u64
 where P: SingleObjectiveProblem + ObjectiveFunction + Sync + 'static, P::Encoding: std::fmt::Debug + Send,
 {
     let mut n = 0;
     // `Configuration<P>: Clone` needs `P: Clone` (derive bound); the component tree itself is cloned the same way
     let inner = config.into_inner();
     let cloned = Configuration::new(inner.clone());
-    let config = Configuration::new(inner);
+    let pristine = inner.clone();   // never run: the reference for "a fresh configuration"
+    let mut config = Configuration::new(inner);
     for seed in [1u64, 2] {
         let a = run(&config, problem, seed, false);
         let fail = |what: &str, b: &Fingerprint| -> ! {
@@ -65,6 +66,24 @@ where P: SingleObjectiveProblem + ObjectiveFunction + Sync + 'static, P::Encodin
             if a != p { fail("parallel evaluation gives a different run than sequential evaluation", &p) }
         }
         n += 6;
+        // a configuration object carries no memory of earlier runs: after a run on ANOTHER instance of the problem type
+        // (other dimension, other domain) it still behaves like a fresh one, and so does a clone taken after that use
+        if let Some(other) = other {
+            let o_fresh = run(&Configuration::new(pristine.clone()), other, seed, false);
+            let o_used = run(&config, other, seed, false);
+            if o_fresh != o_used {
+                eprintln!("COUNTEREXAMPLE template={name} seed={seed}: a configuration object used before on another problem instance runs differently from a fresh one\n  fresh: {o_fresh:?}\n  used : {o_used:?}");
+                panic!("same seed, different run")
+            }
+            let d = run(&config, problem, seed, false);
+            if a != d { fail("a configuration that was run on another problem instance in between gives a different run", &d) }
+            let used = config.into_inner();
+            let used_clone = Configuration::new(used.clone());
+            config = Configuration::new(used);
+            let e = run(&used_clone, problem, seed, false);
+            if a != e { fail("a clone taken from a used configuration gives a different run", &e) }
+            n += 2;
+        }
     }
     if stochastic && run(&config, problem, 1, false) == run(&config, problem, 2, false) {
         eprintln!("COUNTEREXAMPLE template={name}: seeds 1 and 2 give identical runs");
@@ -99,7 +118,7 @@ pub fn c08_native_determinism() {
     //      (stale or placeholder) objective value: "regardless of whether evaluation is sequential or parallel"
     {
         use crate::{problems::Evaluate, Individual, SingleObjective};
-        let sp = whole_run_native::Sphere { returned: std::sync::Mutex::new(Vec::new()) };
+        let sp = whole_run_native::Sphere { returned: std::sync::Mutex::new(Vec::new()), alt: false };
         for n in 0..=5usize {
             for mask in 0..(1u32 << n) {
                 let make = || -> Vec<Individual<whole_run_native::Sphere>> { (0..n).map(|i| {
@@ -120,12 +139,15 @@ pub fn c08_native_determinism() {
         }
     }
     // ---- whole runs of the shipped templates
-    let sp = whole_run_native::Sphere { returned: std::sync::Mutex::new(Vec::new()) };
-    for (name, c) in whole_run_native::real_templates(8) { cases += check_template(name, c, &sp, true); }
+    let sp = whole_run_native::Sphere { returned: std::sync::Mutex::new(Vec::new()), alt: false };
+    let sp_alt = whole_run_native::Sphere { returned: std::sync::Mutex::new(Vec::new()), alt: true };
+    for (name, c) in whole_run_native::real_templates(8) { cases += check_template(name, c, &sp, true, Some(&sp_alt)); }
+    // ... and in the other order: first use on the 5-dimensional wide instance, then the 3-dimensional narrow one
+    for (name, c) in whole_run_native::real_templates(8) { cases += check_template(name, c, &sp_alt, true, Some(&sp)); }
     let pp = whole_run_native::PermCost { returned: std::sync::Mutex::new(Vec::new()) };
     // (discrete search spaces: two seeds may legitimately end in the same optimum, so no difference is demanded)
-    for (name, c) in whole_run_native::perm_templates(8) { cases += check_template(name, c, &pp, false); }
+    for (name, c) in whole_run_native::perm_templates(8) { cases += check_template(name, c, &pp, false, None); }
     let bp = whole_run_native::OneMax { returned: std::sync::Mutex::new(Vec::new()) };
-    cases += check_template("binary_ga", whole_run_native::binary_template(8), &bp, false);
+    cases += check_template("binary_ga", whole_run_native::binary_template(8), &bp, false, None);
     println!("c08_native_determinism: {} runs / generator cases compared", cases);
 }
